@@ -161,44 +161,42 @@ Theorem C07_written_is_utf8 : forall v c,
   In c (escape_html (format_value v)) -> In c (value_scalars v) \/ (c < 128)%N.
 Proof. exact written_scalars. Qed.
 
-(* ---------- second tier, PARTIAL: the validator accepts what the compiler emits ---------- *)
-
-(* compile_always_checks for an EXPRESSION fragment and a LOCAL port of compile_expr
-   (Proofs/CompileChecks.v: constants, variables, attribute/subscript access, unary and binary
-   operators, and/or, ternary, filters/tests/functions without kwargs): for every tree `e` the
-   chunk compiled for `{{ e }}` has a table that check_table accepts. Missing for the full
-   statement: statements, kwargs, literals with elements, comprehensions, component calls, and
-   a correspondence run for the local port (the shared compiler port is on another branch) —
-   for all of those the guarantee is the validator run on every real chunk (family chk). *)
-Theorem C07_compile_always_checks_partial : forall e : CompileChecks.expr,
-  check_table (compile_print e) a_empty (print_table e) = true.
-Proof. exact compile_print_checks. Qed.
+(* ---------- second tier: the validator accepts what the compiler emits ---------- *)
 
 (* compile_always_checks over the SHARED compiler port Model/Compile.v (tied to the real compiler
    by C03's `compile` correspondence: model listing = real listing before optimisation), for its
-   whole statement language — text, print, if/elif/else, for with key and else, set /
-   set_global, set blocks with filter chains, filter sections, include, break, continue;
-   expressions: constants, variables, loop fields, attributes, not/and/or/==, tests, filters
-   with keyword arguments. For EVERY statement list that is well formed in Compile's sense
-   (wf_body: break/continue only inside a for body and not across a capture — what the parser
-   enforces), the compiled chunk has a table check_table accepts. Proved by induction on
+   whole language. Statements: text, print, if/elif/else, for with key and else, set /
+   set_global, set blocks with filter chains, filter sections, include, break, continue.
+   Expressions: constants, variables, loop fields, attributes (plain and optional `?.`),
+   not / and / or, every binary operator (+ - * / // % ** < <= > >= == != ~ in; `not in` is
+   not (.. in ..)), unary minus, the ternary, subscripts and slices (plain and optional, every
+   combination of absent slice operands), tests, filters and function calls with keyword
+   arguments, array and map literals with spreads.
+   For EVERY statement list whose break/continue stand where the parser allows them (brk_body:
+   only inside a for body and not across a capture; NO condition on expressions, names or
+   includes), the compiled chunk has a table check_table accepts. Proved by induction on
    expressions and statements with the invariant "a statement leaves (value stack, loop stack,
-   capture count) as it found it; an expression pushes one slot", merge points of if/and/or,
-   Iterate / Jump / Break / Continue resolved to the loop's positions (Proofs/CompileFrag.v,
-   Proofs/CompileAlwaysChecks.v). Not covered because Model/Compile.v does not have them:
-   subscripts, slices, ternaries, arithmetic, literals with elements, comprehensions,
-   components, blocks (C07_compile_always_checks_partial covers the first four over the local
-   port); those are validated per real chunk by family chk. *)
-Theorem C07_compile_always_checks : forall okn (ss : list Stmt.stmt),
-  wf_body okn ss = true -> exists tbl, check_table (compile ss) a_empty tbl = true.
+   capture count) as it found it; an expression pushes one slot", merge points of
+   if/and/or/ternary, Iterate / Jump / Break / Continue resolved to the loop's positions
+   (Proofs/CompileFrag.v, Proofs/CompileAlwaysChecks.v). The former local-port theorem
+   C07_compile_always_checks_partial is subsumed and removed. Not covered because
+   Model/Compile.v does not have them: list comprehensions, component calls, blocks /
+   inheritance, macros-like forms; those are validated per real chunk by family chk. *)
+Theorem C07_compile_always_checks : forall ss : list Stmt.stmt,
+  brk_body ss = true -> exists tbl, check_table (compile ss) a_empty tbl = true.
 Proof. exact compile_always_checks. Qed.
+
+(* the same for the trees C03's compile_correct is about (wf_body implies brk_body) *)
+Theorem C07_compile_always_checks_wf : forall okn (ss : list Stmt.stmt),
+  wf_body okn ss = true -> exists tbl, check_table (compile ss) a_empty tbl = true.
+Proof. exact compile_always_checks_wf. Qed.
 
 (* closed theorem about the compiler model: compiled code of this language, run on any State in
    a validated world, never reaches a panic site and ends with the three stacks as on entry *)
 Theorem C07_compiled_code_sound :
   forall (W : Type) (wr : W -> str -> option W) (wd : world) (reg : registry),
   world_respects wd reg -> world_checked reg wd = true ->
-  forall okn (ss : list Stmt.stmt), wf_body okn ss = true -> refs_resolved reg wd (compile ss) = true ->
+  forall ss : list Stmt.stmt, brk_body ss = true -> refs_resolved reg wd (compile ss) = true ->
   forall fuel tpl ae depth s o,
   template_good reg wd tpl = true -> blocks_good wd reg s ->
   match run W wr wd fuel tpl ae depth (compile ss) 0 s o with
@@ -227,7 +225,8 @@ Theorem C07_table_sound :
 Proof. exact table_sound. Qed.
 
 Print Assumptions C07_render_sound.
-Print Assumptions C07_compile_always_checks_partial.
+Print Assumptions C07_compile_always_checks.
+Print Assumptions C07_compile_always_checks_wf.
 Print Assumptions C07_compiled_code_sound.
 Print Assumptions C07_component_sound.
 Print Assumptions C07_check_chunk_sound.
@@ -301,12 +300,17 @@ Example C07_ex_compile_model :
   wf_body (fun _ => true) ss = true /\ check_chunk (compile ss) = true /\ length (compile ss) = 18.
 Proof. vm_compute. repeat split. Qed.
 
-(* the local compiler port reproduces the real listing of `{{ false and user.name }}` (the
-   before-optimisation listing used in Props/C09.v) *)
-Example C07_ex_local_port :
-  compile_print (XAnd (XConst (VBool false)) (XAttr (XVar [117%N]) [110%N] false))
-  = [LoadConst (VBool false); JumpIfFalseOrPop 4; LoadName [117%N]; LoadAttr [110%N]; WriteTop].
-Proof. vm_compute. reflexivity. Qed.
+(* the extended expression forms: `{{ (a[1:] if -n < 2 else [x, ...b]) ~ f(k={"k": c?.d, ...m}) }}` compiles
+   to a chunk the validator accepts, with no well-formedness side condition on the expressions *)
+Example C07_ex_compile_ext :
+  let v (c : N) := EVar [c] in
+  let ss := [SPrint (EBin BConcat
+               (ETernary (EBin BLt (ENeg (v 110%N)) (EConst (VInt I64 2)))
+                         (ESlice false (v 97%N) (Some (EConst (VInt I64 1))) None None)
+                         (EArr [(false, v 120%N); (true, v 98%N)]))
+               (ECall [102%N] [([107%N], EMap [(Some (VStr [107%N] false), EAttrOpt (v 99%N) [100%N]); (None, v 109%N)])]))] in
+  brk_body ss = true /\ check_chunk (compile ss) = true /\ length (compile ss) = 24.
+Proof. vm_compute. repeat split. Qed.
 
 (* and the VM model really panics on such chunks: the class the theorems exclude is inhabited *)
 Example C07_ex_panic_is_real :
